@@ -604,13 +604,18 @@ static std::vector<Real> net_ask(Built& b, const NOp& o) {
     case 9: v.push_back(sx::rat(IS->null_space())); break;
     case 10: v.push_back(IS->unknown_stdev(1)); v.push_back(IS->obs_control(1)); break;
     case 11: v.push_back(sx::rat(IS->lindep(1) ? 1 : 0)); v.push_back(sx::rat(IS->lindep(IS->unknowns_count()) ? 1 : 0)); break;
+    case 12: for (auto it = IS->PD.begin(); it != IS->PD.end(); ++it) { const LocalPoint& p = it->second; if (p.test_xy()) { v.push_back(p.x()); v.push_back(p.y()); } if (p.test_z()) v.push_back(p.z()); } break;      // approximate coordinates
+    case 13: { const GNU_gama::local::Vec& x = IS->solve(); for (auto it = IS->PD.begin(); it != IS->PD.end(); ++it) { const LocalPoint& p = it->second;        // adjusted coordinates = approximate + correction
+                 if (p.test_xy()) { v.push_back(p.x() + (p.free_xy() && p.index_x() ? x(p.index_x()) / sx::rat(1000) : sx::rat(0))); v.push_back(p.y() + (p.free_xy() && p.index_y() ? x(p.index_y()) / sx::rat(1000) : sx::rat(0))); }
+                 if (p.test_z()) v.push_back(p.z() + (p.free_z() && p.index_z() ? x(p.index_z()) / sx::rat(1000) : sx::rat(0))); } } break;
+    case 25: IS->refine_approx_coordinates(); break;
     case 20: IS->update_points(); break; case 21: IS->update_observations(); break; case 22: IS->update_residuals(); break; case 23: IS->update_adjustment(); break;
     case 24: IS->set_algorithm(ALGS[o.a]); break;
   }
   return v;
 }
 static void case_c04_net(const Spec& spec, int alg0, int first, int maxlen, bool warm) {
-  std::vector<NOp> ops{{"solve", 0}, {"residuals", 1}, {"trans_VWV", 2}, {"degrees_of_freedom", 3}, {"m_0", 4}, {"qxx(1,n)", 5}, {"qbb(2,2)", 6}, {"stdev_obs/wcoef_res", 7}, {"project_equations(A,b,w)", 8}, {"null_space", 9}, {"unknown_stdev/obs_control", 10}, {"lindep", 11},
+  std::vector<NOp> ops{{"solve", 0}, {"residuals", 1}, {"trans_VWV", 2}, {"degrees_of_freedom", 3}, {"m_0", 4}, {"qxx(1,n)", 5}, {"qbb(2,2)", 6}, {"stdev_obs/wcoef_res", 7}, {"project_equations(A,b,w)", 8}, {"null_space", 9}, {"unknown_stdev/obs_control", 10}, {"lindep", 11}, {"approximate coordinates", 12}, {"adjusted coordinates", 13}, {"refine_approx_coordinates", 25},
                        {"update_points", 20}, {"update_observations", 21}, {"update_residuals", 22}, {"update_adjustment", 23}, {"set_algorithm(envelope)", 24, 0}, {"set_algorithm(cholesky)", 24, 1}, {"set_algorithm(gso)", 24, 2}};
   // the symbolic errors are declared once; every network built below shares them
   std::vector<Real> vals; { size_t k = 0; for (auto& c : spec.cl) for (auto& o : c.obs) { vals.push_back(sym_value(o.val, (int)k, Q(1, 10))); k++; } }
@@ -625,12 +630,21 @@ static void case_c04_net(const Spec& spec, int alg0, int first, int maxlen, bool
     const NOp& last = ops[seq.back()];
     if (last.kind < 20) {
       Built b; if (!fresh_net(b, alg0)) { sx::fail("generated input rejected", ""); return; }
-      int alg = alg0; std::string desc; std::vector<Real> got;
+      int alg = alg0; std::string desc; std::vector<Real> got; bool refined = false;
       if (warm) { b.net.IS->trans_VWV(); b.net.IS->qxx(1, 1); desc = "(adjusted network) "; }      // the history starts on a network that has been adjusted and queried
-      for (size_t k = 0; k < seq.size(); k++) { const NOp& op = ops[seq[k]]; desc += (k ? "; " : "") + op.name; if (op.kind == 24) alg = op.a; std::vector<Real> r = net_ask(b, op); if (k + 1 == seq.size()) got = r; }
-      const std::vector<Real>& want = fresh_answer(alg, last); nseq++;
-      sx::check_true(got.size() == want.size(), "LocalNetwork history {" + desc + "} size of the answer", "");
-      if (got.size() == want.size()) for (size_t i = 0; i < got.size(); i++) sx::check_eq(got[i], want[i], "LocalNetwork history {" + desc + "} component " + std::to_string(i + 1));
+      for (size_t k = 0; k < seq.size(); k++) { const NOp& op = ops[seq[k]]; desc += (k ? "; " : "") + op.name; if (op.kind == 24) alg = op.a; if (op.kind == 25) refined = true; std::vector<Real> r = net_ask(b, op); if (k + 1 == seq.size()) got = r; }
+      // refine_approx_coordinates() moves the approximate coordinates to the adjusted ones; for these linear networks everything else
+      // stays (the corrections become zero; the equations handed out get other right-hand sides and are not compared afterwards)
+      nseq++;
+      if (!(refined && last.kind == 8)) {
+        std::vector<Real> zero; const std::vector<Real>* wantp;
+        if (refined && last.kind == 12) { NOp adj{"adjusted coordinates", 13}; wantp = &fresh_answer(alg, adj); }
+        else if (refined && last.kind == 0) { zero.assign(got.size(), sx::rat(0)); wantp = &zero; }
+        else wantp = &fresh_answer(alg, last);
+        const std::vector<Real>& want = *wantp;
+        sx::check_true(got.size() == want.size(), "LocalNetwork history {" + desc + "} size of the answer", "");
+        if (got.size() == want.size()) for (size_t i = 0; i < got.size(); i++) sx::check_eq(got[i], want[i], "LocalNetwork history {" + desc + "} component " + std::to_string(i + 1));
+      }
     }
     if ((int)seq.size() < maxlen) for (int t = 0; t < (int)ops.size(); t++) { seq.push_back(t); rec(seq); seq.pop_back(); }
   };
@@ -837,7 +851,7 @@ static void gen_cases(const sx::Options& opt, std::vector<sx::Case>& cases) {
     for (auto ax : AX) for (auto an : AN) for (int variant = 0; variant < (th ? 3 : 1); variant++) { std::string a = ax, g = an; int alg = (k++) % 3;
       add("net-c05/" + a + "/" + g + "/v" + std::to_string(variant) + "/" + ALGS[alg], "frames", [a, g, variant, alg] { case_c05_net(a, g, variant, alg); }); } }
   if (on("C04")) { int k = 0; for (auto& s : fam) { if (s.name != "lev5-fixed1/cov2" && s.name != "lev5-free-c2/cov1" && s.name != "vec4-fixed1/cov1") continue; int alg0 = (k++) % 3;
-      for (int first = 0; first < 19; first++) { auto sp = std::make_shared<Spec>(s); int ml = th ? 3 : 2;
+      for (int first = 0; first < 22; first++) { auto sp = std::make_shared<Spec>(s); int ml = (th || first == 14) ? 3 : 2;      // (histories that start with refine_approx_coordinates are taken one call longer)
         add("net-c04/" + s.name + "/" + ALGS[alg0] + "/first" + std::to_string(first), "LocalNetwork histories", [sp, alg0, first, ml] { case_c04_net(*sp, alg0, first, ml, false); });
         add("net-c04/" + s.name + "/" + ALGS[alg0] + "/adjusted-first" + std::to_string(first), "LocalNetwork histories", [sp, alg0, first, ml] { case_c04_net(*sp, alg0, first, ml, true); }); } } }
   std::vector<Spec> fam_en;      // the families with horizontal coordinates, written in the frame "en" (inconsistent with the default angle sense)
